@@ -19,7 +19,7 @@ META = {
             "grpc.ClientConn under testing/synctest (recording LB policy, dialer gated to succeed / fail / hang / close early, raw "
             "HTTP/2 servers sending GOAWAY or closing, SubConn.Shutdown, Close) with concurrent GetState / WaitForStateChange "
             "watchers; TLC validates every recorded sequence against ConnectivityTrace.tla.",
-    "note": "CONNECTING->IDLE is allowed (R2). 'The call' of WaitForStateChange is its first step (linearization). Order of "
+    "note": "CONNECTING->IDLE is allowed (R2); READY->CONNECTING (UpdateAddresses dropping the connected address) is not forbidden by the text and allowed. 'The call' of WaitForStateChange is its first step (linearization). Order of "
             "delivery is judged through allowed edges, the script-implied state after each environment step and the "
             "minimum backoff before TRANSIENT_FAILURE->IDLE; the exact interleavings of the csm steps are covered at the model "
             "level and end to end only by free-running watchers.",
@@ -31,7 +31,7 @@ def step_of(state_text, label):
     m = re.match(r'(\w+?)T?(?:\((.*)\))?$', label)
     name, args = m.group(1), [a.strip().strip('"') for a in (m.group(2) or "").split(",") if a.strip()]
     table = {"Connect": "connect", "DialOk": "dialok", "DialFail": "dialfail", "BackoffDone": "backoff",
-             "Disconnect": "disconnect", "ScShutdown": "scshutdown", "ChanClose": "close", "Deliver": "deliver"}
+             "Disconnect": "disconnect", "ScShutdown": "scshutdown", "UpdAddrs": "updaddrs", "ChanClose": "close", "Deliver": "deliver"}
     if name not in table:
         raise Inconclusive("unknown action label " + label)
     s = {"a": table[name]}
@@ -39,6 +39,8 @@ def step_of(state_text, label):
         s["sc"] = int(args[0])
     if name == "Disconnect":
         s["how"] = args[1]
+    if name == "UpdAddrs":
+        s["kind"] = args[1]
     return s
 
 
@@ -79,6 +81,7 @@ def judge(ctx, res, tpath, what):
 def run(ctx):
     ctx.mc("ConnectivityMC", "ConnectivityMC.cfg", workers=8)
     ctx.neg("ConnectivityMC", "ConnectivityNeg.cfg", expect="I_Order", workers=2)
+    ctx.neg("ConnectivityMC", "ConnectivityNeg3.cfg", expect="I_Transitions", workers=2)   # UpdateAddresses abandons the backoff
     ctx.mc("ConnectivityWaitMC", "ConnectivityWaitMC.cfg", workers=8)
     ctx.neg("ConnectivityWaitMC", "ConnectivityWaitNeg1.cfg", expect="I_NoMissedChange", workers=2)
     ctx.neg("ConnectivityWaitMC", "ConnectivityWaitNeg2.cfg", expect="I_NoMissedChange", workers=2)
@@ -95,7 +98,7 @@ def run(ctx):
         s = summary(ctx.driver(binary, "TestVerifC30Replay", {"VERIF_BEHAVIOURS": bpath, "VERIF_OUT": tpath}))
         infeasible += s["infeasible"]
         for r in rows:
-            ctx.count([(x["a"], x.get("sc"), x.get("how")) for x in r["steps"]], nontrivial=len(r["steps"]) >= 2)
+            ctx.count([(x["a"], x.get("sc"), x.get("how"), x.get("kind")) for x in r["steps"]], nontrivial=len(r["steps"]) >= 2)
         ctx.sample({"scope": cfg, "script": [(x["a"], x.get("sc")) for x in rows[len(rows) // 2]["steps"]]})
         judge(ctx, ctx.validate("ConnectivityTrace", "ConnectivityTrace.cfg", tpath), tpath, "e2e replay " + cfg)
     if infeasible:
